@@ -280,7 +280,7 @@ func init() {
 		},
 		MaxSteps: 600000, MaxTime: 10 * time.Minute,
 		QuickBudget: 60 * time.Second, ThoroughBudget: 15 * time.Minute,
-		Rule: "even runs (enum): groups of 40 runs share one seed, i.e. one operation history prefix; run k of a group crashes the serving leader immediately after its k-th storage commit (window saves, id window, member info, campaign), every other member's clock is set behind by a drawn offset, and a successor takes over; odd runs (faults): random nemesis incl. etcd errors before/after apply on the window save. Oracles after every scheduler step: in-memory physical < stored window for every live allocator; on every commit: stored window never decreases; on every grant: physical < stored window; plus C01's uniqueness/order oracle across the crash. non-trivial = >1 timestamp granted and (fault fired or enum crash or overlapping clients)",
+		Rule: "even runs (enum): groups of 40 runs share one seed, i.e. one operation history prefix; run k of a group crashes the serving leader immediately after its k-th storage commit (window saves, id window, member info, campaign), every other member's clock is set behind by a drawn offset, and a successor takes over; odd runs (faults): random nemesis incl. etcd errors before/after apply on the window save; every eighth run (stale-term): a scripted nemesis cuts the leader off from etcd (or pauses its process) across a whole term of a member with a faster clock, then lets it win again while its old requests are still being delivered. Oracles after every scheduler step: in-memory physical < stored window for every live allocator; on every commit: stored window never decreases; on every grant: physical < stored window; plus C01's uniqueness/order oracle across the crash. non-trivial = >1 timestamp granted and (fault fired or enum crash or overlapping clients)",
 		Real: realE1, Stub: stubE1,
 	})
 	core.Register(&core.Profile{
